@@ -395,6 +395,38 @@ def shared_container_types(chk):
     x.a = True
     x.v[:] = [True, 2, re.IGNORECASE]
     chk.count(('bool',), True)
+    # floats: out-of-range and huge numbers are refused with ProphyError, a bool is stored as the float (D10a, D144, D145)
+    F = type(base)('F', (base,), {'_descriptor': [('f', prophy.r32), ('d', prophy.r64), ('i', prophy.u8)]})
+    y = F()
+    for field, value in (('f', 1e300), ('f', 10 ** 4400), ('d', 10 ** 4400), ('i', 10 ** 4400), ('i', -10 ** 4400), ('i', 256)):
+        shown = repr(value) if isinstance(value, float) or abs(value) < 10 ** 30 else 'a number of %d bits' % value.bit_length()
+        chk.count(('range', field, shown), True)
+        try:
+            setattr(y, field, value)
+            chk.property_violation({'schema': 'hand-written F{r32 f; r64 d; u8 i}', 'operation': '%s = %s' % (field, shown)},
+                                   {'what': 'an out-of-range number was accepted'})
+        except prophy.ProphyError:
+            pass
+        except Exception as ex:  # noqa
+            chk.property_violation({'schema': 'hand-written F{r32 f; r64 d; u8 i}', 'operation': '%s = %s' % (field, shown)},
+                                   {'what': 'a rejected assignment raised %s instead of ProphyError' % py_impl.exc_class(ex)})
+    y.f = True
+    if str(y) != 'f: 1.0\nd: 0.0\ni: 0\n':
+        chk.property_violation({'schema': 'hand-written F{r32 f; r64 d; u8 i}', 'operation': 'f = True'}, {'what': 'a bool assigned to a float field is not stored as the float', 'str': str(y)})
+    # re-selecting the discriminated arm of a deeply nested union is cheap (D146)
+    import time
+    ub = prophy.with_metaclass(prophy.union_generator, prophy.union)
+    U = type(ub)('U0', (ub,), {'_descriptor': [('a', prophy.u8, 0), ('b', prophy.u16, 1)]})
+    for k in range(1, 25):
+        U = type(ub)('U%d' % k, (ub,), {'_descriptor': [('a', U, 0), ('b', U, 1)]})
+    u = U()
+    t0 = time.perf_counter()
+    u.discriminator = 0
+    dt = time.perf_counter() - t0
+    chk.count(('union-reselect',), True)
+    if dt > 2.0:
+        chk.property_violation({'schema': 'hand-written unions nested 24 deep', 'operation': 'discriminator = 0 (already selected)'},
+                               {'what': 're-selecting the discriminated arm took %.1f s' % dt})
     if str(x) != 'a: 1\nv: 1\nv: 2\nv: 2\n' or type(x.a) is bool or type(x.v[2]) is not int:
         chk.property_violation({'schema': 'hand-written B{u8 a; u8 n; u16 v<@n>}', 'operation': 'a = True; v[:] = [True, 2, re.IGNORECASE]'},
                                {'what': 'a bool / int subclass assigned to an integer field is not stored as the plain integer', 'str': str(x)})
